@@ -262,3 +262,73 @@ func verif_C17_pair() {
 	verifAssert(reps[skip+2].code == 250, "C17.pair-command-mode-after")
 	verifReach("C17.pair-end")
 }
+
+// verif_C17_client_seg: what the client reports does not depend on how the
+// server's replies are cut into network reads. A reply stream with a multi-line
+// positive reply, a multi-line refusal carrying enhanced codes, a refusal
+// without enhanced code, 354 and a final verdict is delivered whole, octet by
+// octet, and with one (quick) or two (thorough) cuts at ARBITRARY offsets;
+// every call returns the same
+// code, enhanced code and text.
+func verif_C17_client_seg() {
+	script := "250-2.1.0 sender\r\n250 2.1.0 ok\r\n" +
+		"550-5.7.1 line one\r\n550 5.7.1 line two\r\n" +
+		"451 try later\r\n" +
+		"250 2.1.5 ok\r\n" +
+		"354 go\r\n" +
+		"554-5.6.0 bad\r\n554 5.6.0 content\r\n"
+	type res struct {
+		code int
+		enh  EnhancedCode
+		msg  string
+	}
+	run := func(seg int, cuts []int) []res {
+		var out []res
+		note := func(err error) {
+			if err == nil {
+				out = append(out, res{})
+				return
+			}
+			if se, ok := err.(*SMTPError); ok {
+				out = append(out, res{se.Code, se.EnhancedCode, se.Message})
+				return
+			}
+			out = append(out, res{code: -1, msg: err.Error()})
+		}
+		c, vc := verifClient(script, nil)
+		vc.seg, vc.cuts = seg, cuts
+		note(c.Mail("s@v", nil))
+		note(c.Rcpt("a@v", nil))
+		note(c.Rcpt("b@v", nil))
+		note(c.Rcpt("c@v", nil))
+		w, err := c.Data()
+		note(err)
+		if err == nil {
+			w.Write([]byte("x\r\n"))
+			note(w.Close())
+		}
+		return out
+	}
+	ref := run(0, nil)
+	verifAssert(len(ref) == 6 && ref[0].code == 0 && ref[1].code == 550 && ref[1].enh == EnhancedCode{5, 7, 1} && ref[1].msg == "line one\nline two" &&
+		ref[2].code == 451 && ref[3].code == 0 && ref[4].code == 0 && ref[5].code == 554 && ref[5].msg == "bad\ncontent", "C17.client-seg-reference")
+	var got []res
+	if verifChoice(8) == 0 {
+		got = run(1, nil)
+	} else {
+		c1 := nondetInt(1, len(script)-1)
+		cuts := []int{c1}
+		if verifBound(0, 1) == 1 {
+			cuts = append(cuts, nondetInt(c1, len(script)-1))
+		}
+		got = run(0, cuts)
+	}
+	verifObserve("c17seg", len(ref), len(got))
+	verifAssert(len(got) == len(ref), "C17.client-seg-same-calls")
+	if len(got) == len(ref) {
+		for i := range ref {
+			verifAssert(got[i] == ref[i], "C17.client-seg-same-results")
+		}
+	}
+	verifReach("C17.client-seg-end")
+}
